@@ -24,6 +24,12 @@ import traceback
 import warnings
 
 warnings.simplefilter('ignore')
+try:
+    # the repository's own test-suite does the same: netCDF4/HDF5 is not thread safe under dask
+    import dask
+    dask.config.set(scheduler='synchronous')
+except Exception:  # noqa: BLE001
+    pass
 
 VERIF = pathlib.Path(__file__).resolve().parent.parent
 sys.path.insert(0, str(VERIF))
